@@ -274,7 +274,8 @@ func (w *zzRegWorld) check(ctx context.Context) {
 	// the order of the two listings is a choice of the run: the first one after an
 	// update meets a cold cache
 	if !w.orderSet {
-		w.orderSet, w.filteredFirst = true, zzBool("filtered_listing_first")
+		// (the thorough tier spends its path budget on longer histories and keeps the order fixed)
+		w.orderSet, w.filteredFirst = true, zzTier() == 0 && zzBool("filtered_listing_first")
 	}
 	if w.filteredFirst {
 		w.checkFiltered(ctx)
